@@ -55,6 +55,17 @@ def run_c15(ctx):
     data_name = os.path.join(root, "tab." + ("pkl" if engine == "pickle" else "csv"))
     # arguments: a (choices), b (choices or generator), optional c; constants k (runner) / m (per run)
     a_vals = t.perm(G.POOLS["int"], "a")[: t.int_between(1, 4, "na")]
+    a_choices = None
+    a_form = t.choose(6, "a-choices-as")
+    if a_form == 3:
+        a_choices = tuple(a_vals)
+    elif a_form == 4:
+        a_choices = np.array(a_vals)
+    elif a_form == 5:
+        # an arithmetic progression given as a range (with a step)
+        start_, step_ = t.pick([1, 2, 5], "a-start"), t.pick([1, 2, 3, 4], "a-step")
+        a_choices = range(start_, start_ + step_ * t.int_between(1, 4, "a-len"), step_)
+        a_vals = list(a_choices)
     b_is_gen = t.flag(1, 3, "b-generator")
     b_vals = GEN_RANGE if b_is_gen else t.perm(G.POOLS["float"], "b")[: t.int_between(1, 3, "nb")]
     has_c = t.flag(1, 2, "has-c")
@@ -64,7 +75,8 @@ def run_c15(ctx):
     res = {"r": 9} if t.flag(1, 3, "resource") else {}
     fn = calllog.make_fn(kind, args + list(rconst) + list(res) + ["m"], defaults={"m": 0})
     allowed = {"a": list(a_vals), "b": list(b_vals)}
-    default_combos = {"a": list(a_vals), "b": gen_b if b_is_gen else list(b_vals)}
+    default_combos = {"a": list(a_vals) if a_choices is None else a_choices,
+                      "b": gen_b if b_is_gen else list(b_vals)}
     if has_c:
         allowed["c"] = list(c_vals)
         default_combos["c"] = list(c_vals)
